@@ -41,6 +41,29 @@ CLAIMS = {
         "a real restart (new Router + RestoreLastSavedState on the same file) at a random point of every history, all later observations compared.",
    note=TB + "encoding/json is modelled (field list tied by the state-file key comparison). The theorem is conditional on Restorable, which F21 histories violate (known finding)."),
 
+'C16': dict(engine='control', technique='Lean 4 proof (decision logic stated outright over the request-path model; inheritance from the definition of the table sync) + differential correspondence run',
+   text="Theorems: TLS+redirect+plain HTTP => 301 to https://host-without-port + request-URI, independent of pause state, claiming nothing; "
+        "no TLS + arrived over TLS => 503; both precede the health-check short-circuit and the gate; a handshake gets a certificate manager "
+        "only for a non-empty name routed at / to a service whose options had TLS on at initialisation; automatic TLS with a wildcard host is "
+        "refused; a sub-path service carries the flags of the root service of its first host (TLS off if none). The statement's 'of its host' "
+        "for multi-host sub-path services is FALSE on the pinned tree (theorem C16_witness_multihost, finding F9, replayed every run).",
+   note=TB + "Modelled: crypto/tls handshake, autocert host policy, http.Redirect. Partial: percent-encoded redirect targets rely on the net/url model of C13."),
+ 'C08': dict(engine='control', technique='Lean 4 proof (request-path decision logic; escaping by kernel-checked decide over all 256 bytes, lifted by induction) + differential correspondence run',
+   text="Theorems: a stopped service answers every TLS-admissible request 503 with the current message and claims nothing, except the "
+        "health-check GET (200); resume sets running; stop records the message; the pause controller is unaffected by any deploy of the "
+        "service (successful or not); the inserted text contains no < > \" ' for every message and unescapes back to the message. Tied by "
+        "histories of stop/pause/resume/deploy/rollout with hostile messages, built-in and custom 503 pages, body text compared byte for byte.",
+   note=TB + "Modelled: html/template text-context escaper. The concurrent clause (requests arriving at any time) is carried by the proxy engine (C07)."),
+
+'C14': dict(engine='buffer+control+faults', technique='Lean 4 proof (invariants by induction over write sequences; middleware over handler event traces) + differential correspondence run incl. an exhaustive small scope',
+   text="Theorems (all sizes, chunkings, limits): a body within the limit is accepted and delivered byte-exact for every chunking; memory "
+        "never holds more than buffer-memory bytes, a spill exists iff more was accepted and memory is then exactly full; overflow iff a "
+        "write would pass max-bytes (exactly max-bytes accepted, one more rejected); request middleware: over the limit => 413 and the next "
+        "handler is never called, else called with exactly the client's bytes; response middleware: for every handler trace and every ending "
+        "(return, overflow, hijack, event stream, panic) every spill created is removed, at most one is created. Tied by an exhaustive small "
+        "scope against the real Buffer plus middleware runs with a private TMPDIR.",
+   note=TB + "File-system effects are modelled as events (create/remove). The exact-status clause of response buffering for arbitrary traces is shown by evaluation on examples and the correspondence run rather than a general theorem."),
+
 'C12': dict(engine='snapshot', technique='Lean 4 proof (invariant of the snapshot protocol over all interleavings and crash points; FileCurrent by induction over histories) + differential correspondence run at the real step boundaries',
    text="Theorems: in the lock/list/temp/rename protocol, for every interleaving of any number of overlapping commands the state path only "
         "ever changes by an atomic rename to a complete listing (a kill at any step boundary leaves a complete snapshot: the previous or the "
